@@ -28,10 +28,12 @@ def check(spec):
         kw = {}
         if spec.get('hints'):
             kw = dict(zip(('axisp1_idx', 'axisp2_idx', 'opoint_idx'), spec['hints']))
+        if spec.get('replace_all'):
+            kw['replace_all'] = True
         res, num = repl.do_replace(case, sp, rp, seed=spec.get('rng', 0), replace_fraction=f, **kw)
     except Exception as e:
         return "replace_pattern_in_structure raised %r" % (e,)
-    smap = repl.shared_map(sp0, rp0)
+    smap = {} if spec.get('replace_all') else repl.shared_map(sp0, rp0)      # replace_all: every atom of the replacement is inserted
     s_only = [j for j in range(len(sp0.positions)) if j not in smap.values()]
     r_only = [i for i in range(len(rp0.positions)) if i not in smap]
     M = num
@@ -144,7 +146,7 @@ def run(rec, tier, seed):
                 "(grow-shared, swap-element, disjoint, sym-grow, collinear-swap, single-swap); checks: every inserted atom inside the cell "
                 "(fractional in [0,1]), matched + inserted atoms form a proper rigid image of search + replacement coordinates modulo the "
                 "lattice (exact copies: bound 1e-4 A), result invariant under a joint rigid motion of both patterns. distinct = specs")
-    pairs = ['grow-shared', 'swap-element', 'disjoint', 'sym-grow', 'collinear-swap', 'single-swap', 'grow-planar', 'nudge-swap']
+    pairs = ['grow-shared', 'swap-element', 'disjoint', 'sym-grow', 'collinear-swap', 'single-swap', 'grow-planar', 'nudge-swap', 'to-single-offset']
     cells = list(geo.CELLS)
     nseed = 2 if tier == 'quick' else 6
     for pi, pair in enumerate(pairs):
@@ -162,6 +164,13 @@ def run(rec, tier, seed):
                     rec.case(repr(sorted(spt.items())), group='placement-small-tilt')
                     if msg:
                         rec.fail('placement', 'placement', "%s on %r" % (msg, spt), spt, 'C05/placement')
+                if s == 0 and pair in ('grow-shared', 'swap-element', 'grow-planar', 'single-swap'):
+                    # every atom replaced, also those the two patterns share
+                    spa = dict(spec, f=1.0, replace_all=True)
+                    msg = check(spa)
+                    rec.case(repr(sorted(spa.items())), group='placement-replace-all')
+                    if msg:
+                        rec.fail('placement', 'placement', "%s on %r" % (msg, spa), spa, 'C05/placement')
                 if s == 0 and pair in ('grow-shared', 'disjoint', 'swap-element'):
                     spc = dict(spec, f=1.0, pattern_cell=[6.0, 40.0][(pi + ci) % 2])
                     msg = check(spc)
@@ -185,7 +194,7 @@ def run(rec, tier, seed):
                         rec.case(repr(sorted(sp3.items())), group='history')
                         if msg:
                             rec.fail('placement', 'placement-history', "%s on %r" % (msg, sp3), sp3, 'C05/history-independence')
-                if s == 0 and pair not in ('grow-shared', 'sym-grow'):
+                if s == 0 and pair not in ('grow-shared', 'sym-grow', 'to-single-offset'):      # two-atom / symmetric search patterns leave the azimuth open
                     for mo in (1, 2) if tier == 'quick' else (1, 2, 3, 4, 5, 6):
                         sp2 = dict(spec, motion=mo, relation=True)
                         msg = check_motion(sp2)
